@@ -16,11 +16,11 @@ LEVEL = 'model_checking'
 TECHNIQUE = ('explicit-state breadth-first model checking of the implementation: states are canonical disk images, transitions execute the real '
              'trash-put / trash-restore / trash-rm / trash-empty on the state rebuilt from its snapshot; a bag reference model is stepped in lock-step and '
              'trash-list is compared with it after every transition')
-LEVEL_TEXT = ('every state reachable by at most d commands (quick d=5, thorough d=6) from the empty trash, and by at most 3 (thorough 5) commands from a second initial state in which one volume holds entries in both .Trash/uid and .Trash-uid, and by at most 2 (thorough 4) from a third one whose .Trash-uid is a symbolic link and a fourth one that holds a symlink to a live directory and a name with a percent escape, over a 17-command alphabet on two volumes (behind a third one whose .Trash is not sticky and must be skipped by every command) is generated, deduplicated by a '
+LEVEL_TEXT = ('every state reachable by at most d commands (quick d=5, thorough d=6) from the empty trash, and by at most 3 (thorough 5) commands from a second initial state in which one volume holds entries in both .Trash/uid and .Trash-uid, and by at most 2 (thorough 4) from a third one whose .Trash-uid is a symbolic link and a fourth one that holds a symlink to a live directory and a name with a percent escape, over an 18-command alphabet on two volumes (behind a third one whose .Trash is not sticky and must be skipped by every command) is generated, deduplicated by a '
               'canonical hash of the whole disk image, and in every state the output of the real trash-list must equal the bag (multiset of date+path lines) and the pairs on disk must equal the bag')
 LEVEL_NOTE = ('exhaustive to the stated depth only; canonicalisation drops directory/.trashinfo mtimes and inode numbers, which no trash-cli code path reads (grep st_mtime|st_ino is empty); '
               'trusted: R3/R4/R5 reference models')
-RULE = ('alphabet: put of 6 entries (re-created with path-determined content when absent; four of them share the base name "a" - one of these is a dangling symlink -, one is a directory, two live on /mnt/v1, one of them with a percent escape and a trailing blank in its name), restore with '
+RULE = ('alphabet: one run putting a file and a symlink to it; put of 6 entries (re-created with path-determined content when absent; four of them share the base name "a" - one of these is a dangling symlink -, one is a directory, two live on /mnt/v1, one of them with a percent escape and a trailing blank in its name), restore with '
         '(scope, reply) in {(/,0),(/home/u/w,0),(/,0-1),(/mnt/v1,0)}, rm {a,*,/home/u/w/*}, empty -i answered y, empty 1, empty 0 (entries of the current day are exactly at the limit and stay), tick (+1 day, at most 2); BFS to the depth bound; distinct = transition outcome labels')
 DEPTH = {'quick': 5, 'thorough': 6}
 STATE_CAP = {'quick': 60000, 'thorough': 400000}
@@ -29,7 +29,7 @@ PUTS = {'put:w/a': ('/home/u/w/a', 'file'), 'put:w/d': ('/home/u/w/d', 'tree'), 
         'put:v1/p/a': ('/mnt/v1/p/a', 'file'), 'put:v1/p/b': ('/mnt/v1/p/b%41 ', 'file'), 'put:w/ln/a': ('/home/u/w/ln/a', 'ldang')}
 RESTORES = {'restore:/,0': ('/', '0'), 'restore:w,0': ('/home/u/w', '0'), 'restore:/,0-1': ('/', '0-1'), 'restore:v1,0': ('/mnt/v1', '0')}
 RMS = {'rm:a': 'a', 'rm:*': '*', 'rm:/home/u/w/*': '/home/u/w/*'}
-ACTIONS = list(PUTS) + list(RESTORES) + list(RMS) + ['empty', 'empty:1', 'empty:0', 'tick']
+ACTIONS = list(PUTS) + ['put2:w/a+w/la'] + list(RESTORES) + list(RMS) + ['empty', 'empty:1', 'empty:0', 'tick']
 MOUNTS = ['/', '/mnt/v0', '/mnt/v1']          # /mnt/v0 comes first and has a .Trash that is NOT sticky, with a populated $uid directory: skipped by everybody, always
 INSECURE = '/mnt/v0/.Trash/0'
 ENV = {'HOME': '/home/u'}
@@ -170,6 +170,25 @@ def apply(sb, model, action):
             viol = ('C09|put-failed', 'put-failed', {'err': r.err[-300:]})
         bag2 = R3.put(bag, path, now, dg, td)
         label = 'put(ok)'
+    elif action == 'put2:w/a+w/la':
+        # ONE trash-put run naming a file and a symbolic link to it: two entries, two lines
+        pa, pl = '/home/u/w/a', '/home/u/w/la'
+        if len(bag) > 0 or day > 0:
+            return {'bag': bag, 'day': day}, 'put2(only offered on an empty trash)', None, 0          # keeps the quick state space in bounds
+        import os
+        os.makedirs(sb.root + '/home/u/w', exist_ok=True)
+        if not world.under(before, pa):
+            world.build(sb.root, [['f', pa, 0o640, (world.T0 + 77) * 10 ** 9, 'content of %s\n' % pa]])
+        if not world.under(before, pl):
+            world.build(sb.root, [['l', pl, 'a', (world.T0 + 78) * 10 ** 9]])
+        before = sb.snapshot()
+        dga, dgl = digest_of(before, pa), digest_of(before, pl)
+        r = sb.run(['trash-put', pa, pl], env=ENV, cwd='/', now=now)
+        execs += 1
+        if r.exit != 0:
+            viol = ('C09|put-failed', 'put-failed', {'err': r.err[-300:]})
+        bag2 = R3.put(R3.put(bag, pa, now, dga, scen.HOME_TRASH), pl, now, dgl, scen.HOME_TRASH)
+        label = 'put2(ok)'
     elif action in RESTORES:
         scope, reply = RESTORES[action]
         r0 = sb.run(['trash-restore', scope], env=ENV, cwd='/', stdin='\n')
